@@ -417,6 +417,11 @@ class Engine:
                 return r.value
         finally:
             self.frames.pop()
+            if fr.loc is not locs:
+                # merged branches rebind the frame's dict: hand the final locals back to the caller's dict
+                final = dict(fr.loc)
+                locs.clear()
+                locs.update(final)
         return None
 
     # ---- wrapping real objects -------------------------------------------
@@ -1314,7 +1319,12 @@ class Engine:
             idx = idx % n
         else:
             idx = sv(idx)
-            self.oblige('tab_idx', and_(idx >= 0, idx < n), node, info=tab.name)
+            if getattr(self, 'neg_index_wraps', False):
+                # Python's own rule for sequences: -len <= i < len, negative indices count from the end
+                self.oblige('tab_idx', and_(idx >= -n, idx < n), node, info=tab.name)
+                idx = ite(idx < 0, idx + n, idx)
+            else:
+                self.oblige('tab_idx', and_(idx >= 0, idx < n), node, info=tab.name)
         nidx = tab.idx + (idx,)
         if len(nidx) == len(tab.dims):
             return tab.fn(*nidx)
